@@ -321,7 +321,7 @@ Reported == /\ Ev("reported") /\ Consume
             /\ (E.kind = "blames-peer" => closed)
             /\ Keep(<<ans, exp, qst, qtag, qrel, imp, lh, started, callseq, appret, shut, caps, lres, pret, closed, aborted, emb>>)
 Passive == /\ (Ev("l-bootstrap") \/ (Ev("l-call") /\ E.cap = "") \/ Ev("app-cancelled") \/ Ev("fault")
-               \/ Ev("transport-closed") \/ Ev("done") \/ Ev("end") \/ Ev("peer-deliver") \/ Ev("peer-echo") \/ Ev("view") \/ Ev("held") \/ Ev("hold-expired") \/ Ev("released"))
+               \/ Ev("transport-closed") \/ Ev("done") \/ Ev("end") \/ Ev("peer-deliver") \/ Ev("peer-echo") \/ Ev("view") \/ Ev("held") \/ Ev("hold-expired") \/ Ev("released") \/ Ev("l-cancel"))
            /\ Consume
            /\ Keep(<<ans, exp, qst, qtag, qrel, imp, lh, started, callseq, appret, shut, caps, lres, pret, closed, aborted, emb>>)
 
@@ -331,11 +331,15 @@ Quiesce == /\ Ev("quiesce") /\ Consume
            /\ (closed \/ aborted \/ \A i \in Ids : (ans[i].st = "open" /\ ans[i].kind = "call" /\ \E r \in appret : r[1] = ans[i].tag) => FALSE)
            /\ (closed \/ aborted \/ \A i \in Ids : ans[i].st = "open" => ans[i].kind = "call")       \* bootstraps are answered at once
            /\ (closed \/ aborted \/ \A i \in Ids : qst[i] # "returned")
-           /\ \A k \in caps : Holders(k) = {} => k \in Range(shut)
            \* embargoes: every request was echoed, every announced embargo is over, every pipelined local call has resolved
            /\ (closed \/ aborted \/ (emb.req = {} /\ emb.out = {} /\ \A t \in LTags : Resolved(t)))
-           /\ (closed \/ aborted \/ \A i \in Ids : (imp[i] > 0 /\ ~\E x \in lh : x[2] = i) => FALSE)     \* an import nobody references has been released (moot once the connection is gone)
            /\ Keep(<<ans, exp, qst, qtag, qrel, imp, lh, started, callseq, appret, shut, caps, lres, pret, closed, aborted, emb>>)
+\* the same quiescent point, obligations about references: every capability nobody holds has been shut down, every import
+\* nobody references has been released
+QuiesceRefs == /\ Ev("quiesce-refs") /\ Consume
+               /\ \A k \in caps : Holders(k) = {} => k \in Range(shut)
+               /\ (closed \/ aborted \/ \A i \in Ids : (imp[i] > 0 /\ ~\E x \in lh : x[2] = i) => FALSE)     \* (moot once the connection is gone)
+               /\ Keep(<<ans, exp, qst, qtag, qrel, imp, lh, started, callseq, appret, shut, caps, lres, pret, closed, aborted, emb>>)
 \* after Close returned everything the connection held has been released: every capability shut down exactly once
 CloseReturned == /\ Ev("close-returned") /\ Consume
                  /\ \A k \in caps : Count(shut, k) = 1
@@ -344,7 +348,7 @@ CloseReturned == /\ Ev("close-returned") /\ Consume
 Next == Reset \/ RecvBootstrap \/ RecvCall \/ RecvFinish \/ RecvRelease \/ RecvReturn \/ RecvDisembargo \/ RecvOther
         \/ SendReturn \/ SendReturnNoBody \/ SendReturnForwarded \/ SendQuestion \/ SendFinish \/ SendRelease \/ SendAbort
         \/ SendDisembargoSender \/ SendDisembargoEcho \/ SendOther \/ LPCall \/ LCallCap \/ Reported
-        \/ AppStart \/ AppReturn \/ Shutdown \/ CloseInvoked \/ LHandle \/ LRelease \/ LocalResult \/ Passive \/ Quiesce \/ CloseReturned
+        \/ AppStart \/ AppReturn \/ Shutdown \/ CloseInvoked \/ LHandle \/ LRelease \/ LocalResult \/ Passive \/ Quiesce \/ QuiesceRefs \/ CloseReturned
 Spec == Init /\ [][Next]_vars
 
 ASSUME TLCSet(1, 0)
